@@ -840,3 +840,331 @@ Proof.
     + rewrite (Hlast [] x0 eq_refl). reflexivity.
     + rewrite (Hhead y (r0 ++ [x0]) eq_refl). reflexivity.
 Qed.
+
+(* ---- Call logs ---------------------------------------------------------------------- *)
+
+(* the arguments handed to the callback by the iterations the loop executes *)
+Fixpoint trace {A S R L} (arg : A -> S -> L) (body : nat -> A -> S -> ctl S R) (i : nat) (l : list A) (s : S)
+  : list L :=
+  match l with
+  | [] => []
+  | v :: rest => arg v s :: match body i v s with Next s' => trace arg body (i + 1) rest s' | Ret _ => [] end
+  end.
+
+Lemma logging_range {A S R L} (arg : A -> S -> L) (body : nat -> A -> S -> ctl S R) (l : list A) :
+  forall i s calls,
+  range_from (logging arg body) i l (s, calls) =
+  match range_from body i l s with
+  | Next s' => Next (s', calls ++ trace arg body i l s)
+  | Ret r => Ret (r, calls ++ trace arg body i l s)
+  end.
+Proof.
+  induction l as [|v l IH]; intros i s calls; cbn [range_from trace].
+  - rewrite app_nil_r. reflexivity.
+  - unfold logging at 1. destruct (body i v s) as [s'|r].
+    + rewrite IH, <- !app_assoc. reflexivity.
+    + reflexivity.
+Qed.
+
+Lemma trace_search_none {A R L} (arg : A -> unit -> L) (p : A -> bool) (ret : nat -> A -> R) (l : list A) : forall i,
+  (forall x, In x l -> p x = false) ->
+  trace arg (fun i v (_ : unit) => if p v then Ret (ret i v) else Next tt) i l tt = map (fun v => arg v tt) l.
+Proof.
+  induction l as [|v l IH]; intros i Hall; cbn [trace map]; [reflexivity|].
+  rewrite (Hall v (or_introl eq_refl)). f_equal. apply IH. intros x Hx. apply Hall. right. exact Hx.
+Qed.
+
+Lemma trace_search_first {A R L} (arg : A -> unit -> L) (p : A -> bool) (ret : nat -> A -> R) (pre : list A) x post :
+  forall i, (forall y, In y pre -> p y = false) -> p x = true ->
+  trace arg (fun i v (_ : unit) => if p v then Ret (ret i v) else Next tt) i (pre ++ x :: post) tt
+  = map (fun v => arg v tt) (pre ++ [x]).
+Proof.
+  induction pre as [|v pre IH]; intros i Hpre Hx; cbn [trace map app].
+  - rewrite Hx. reflexivity.
+  - rewrite (Hpre v (or_introl eq_refl)). f_equal. apply IH; [|exact Hx]. intros y Hy. apply Hpre. right. exact Hy.
+Qed.
+
+Lemma trace_next {A S R L} (arg : A -> S -> L) (body : nat -> A -> S -> ctl S R) (g : S -> A -> S) :
+  (forall i v s, body i v s = Next (g s v)) ->
+  forall l i s, trace arg body i l s = map (fun '(s, v) => arg v s) (fold_trace g s l).
+Proof.
+  intros Hb l; induction l as [|v l IH]; intros i s; cbn [trace fold_trace map]; [reflexivity|].
+  rewrite Hb. f_equal. apply IH.
+Qed.
+
+Lemma fold_trace_values {A State} (g : State -> A -> State) (l : list A) : forall s, map snd (fold_trace g s l) = l.
+Proof. induction l as [|v l IH]; intros s; cbn [fold_trace map snd]; [reflexivity|]. f_equal. apply IH. Qed.
+
+Lemma map_pair_id {A B} (l : list (A * B)) : map (fun '(s, v) => (s, v)) l = l.
+Proof. induction l as [|[a b] l IH]; cbn [map]; [reflexivity|]. f_equal. exact IH. Qed.
+
+(* search loops: what the callback sees is the input up to and including the first decisive element *)
+Section SearchCalls.
+Context {A : Type}.
+
+Lemma indexfunc_calls_fst (l : list A) f : fst (indexfunc_calls l f) = indexfunc l f.
+Proof.
+  unfold indexfunc_calls, indexfunc, for_range. rewrite logging_range.
+  destruct (range_from _ 0 l tt) as [[]|r]; reflexivity.
+Qed.
+
+Lemma indexfunc_calls_none (l : list A) f :
+  (forall x, In x l -> f x = false) -> indexfunc_calls l f = ((-1)%Z, l).
+Proof.
+  intros H. unfold indexfunc_calls, for_range. rewrite logging_range.
+  rewrite (range_from_search_none f (fun i _ => Z.of_nat i)) by exact H.
+  rewrite (trace_search_none (fun v _ => v) f (fun i _ => Z.of_nat i)) by exact H. rewrite map_id. reflexivity.
+Qed.
+
+Lemma indexfunc_calls_first (pre : list A) x post f :
+  (forall y, In y pre -> f y = false) -> f x = true ->
+  indexfunc_calls (pre ++ x :: post) f = (Z.of_nat (length pre), pre ++ [x]).
+Proof.
+  intros Hp Hx. unfold indexfunc_calls, for_range. rewrite logging_range.
+  rewrite (range_from_search_first f (fun i _ => Z.of_nat i)) by assumption.
+  rewrite (trace_search_first (fun v _ => v) f (fun i _ => Z.of_nat i)) by assumption. rewrite map_id. reflexivity.
+Qed.
+
+Lemma any_calls_fst (l : list A) cond : fst (any_calls l cond) = any l cond.
+Proof.
+  unfold any_calls, any, for_range. rewrite logging_range.
+  destruct (range_from _ 0 l tt) as [[]|r]; reflexivity.
+Qed.
+
+Lemma any_calls_none (l : list A) cond :
+  (forall x, In x l -> cond x = false) -> any_calls l cond = (false, l).
+Proof.
+  intros H. unfold any_calls, for_range. rewrite logging_range.
+  rewrite (range_from_search_none cond (fun _ _ => true)) by exact H.
+  rewrite (trace_search_none (fun v _ => v) cond (fun _ _ => true)) by exact H. rewrite map_id. reflexivity.
+Qed.
+
+Lemma any_calls_first (pre : list A) x post cond :
+  (forall y, In y pre -> cond y = false) -> cond x = true ->
+  any_calls (pre ++ x :: post) cond = (true, pre ++ [x]).
+Proof.
+  intros Hp Hx. unfold any_calls, for_range. rewrite logging_range.
+  rewrite (range_from_search_first cond (fun _ _ => true)) by assumption.
+  rewrite (trace_search_first (fun v _ => v) cond (fun _ _ => true)) by assumption. rewrite map_id. reflexivity.
+Qed.
+
+Lemma all_calls_fst (l : list A) cond : fst (all_calls l cond) = all l cond.
+Proof.
+  unfold all_calls, all, for_range. rewrite logging_range.
+  destruct (range_from _ 0 l tt) as [[]|r]; reflexivity.
+Qed.
+
+Lemma all_calls_all (l : list A) cond :
+  (forall x, In x l -> cond x = true) -> all_calls l cond = (true, l).
+Proof.
+  intros H. unfold all_calls, for_range. rewrite logging_range.
+  assert (H' : forall x, In x l -> negb (cond x) = false) by (intros x Hx; rewrite (H x Hx); reflexivity).
+  rewrite (range_from_search_none (fun v => negb (cond v)) (fun _ _ => false)) by exact H'.
+  rewrite (trace_search_none (fun v _ => v) (fun v => negb (cond v)) (fun _ _ => false)) by exact H'.
+  rewrite map_id. reflexivity.
+Qed.
+
+Lemma all_calls_first (pre : list A) x post cond :
+  (forall y, In y pre -> cond y = true) -> cond x = false ->
+  all_calls (pre ++ x :: post) cond = (false, pre ++ [x]).
+Proof.
+  intros Hp Hx. unfold all_calls, for_range. rewrite logging_range.
+  assert (Hp' : forall y, In y pre -> negb (cond y) = false) by (intros y Hy; rewrite (Hp y Hy); reflexivity).
+  assert (Hx' : negb (cond x) = true) by (rewrite Hx; reflexivity).
+  rewrite (range_from_search_first (fun v => negb (cond v)) (fun _ _ => false)) by assumption.
+  rewrite (trace_search_first (fun v _ => v) (fun v => negb (cond v)) (fun _ _ => false)) by assumption.
+  rewrite map_id. reflexivity.
+Qed.
+
+Lemma containsfunc_calls_fst (l : list A) v equals : fst (containsfunc_calls l v equals) = containsfunc l v equals.
+Proof.
+  unfold containsfunc_calls, containsfunc, for_range. rewrite logging_range.
+  destruct (range_from _ 0 l tt) as [[]|r]; reflexivity.
+Qed.
+
+Lemma containsfunc_calls_none (l : list A) value equals :
+  (forall x, In x l -> equals x value = false) ->
+  containsfunc_calls l value equals = (false, map (fun v => (v, value)) l).
+Proof.
+  intros H. unfold containsfunc_calls, for_range. rewrite logging_range.
+  rewrite (range_from_search_none (fun v => equals v value) (fun _ _ => true)) by exact H.
+  rewrite (trace_search_none (fun v _ => (v, value)) (fun v => equals v value) (fun _ _ => true)) by exact H.
+  reflexivity.
+Qed.
+
+Lemma containsfunc_calls_first (pre : list A) x post value equals :
+  (forall y, In y pre -> equals y value = false) -> equals x value = true ->
+  containsfunc_calls (pre ++ x :: post) value equals = (true, map (fun v => (v, value)) (pre ++ [x])).
+Proof.
+  intros Hp Hx. unfold containsfunc_calls, for_range. rewrite logging_range.
+  rewrite (range_from_search_first (fun v => equals v value) (fun _ _ => true)) by assumption.
+  rewrite (trace_search_first (fun v _ => (v, value)) (fun v => equals v value) (fun _ _ => true)) by assumption.
+  reflexivity.
+Qed.
+End SearchCalls.
+
+(* loops that visit everything: the callback sees every element once, in order *)
+Lemma map_calls_correct {A B} (zero : B) (l : list A) (conv : A -> B) :
+  map_calls zero l conv = (Ok (map conv l), l).
+Proof.
+  unfold map_calls, for_range. rewrite logging_range.
+  pose proof (map_loop_correct zero conv l []) as El. cbn [length app] in El. rewrite El.
+  (* the trace: by induction with the same invariant *)
+  assert (T : forall rest (done : list B),
+            trace (fun (v : A) (_ : list B) => v)
+              (fun i v result => match set_nth i (conv v) result with Ok result' => Next result' | Panic k => Ret k end)
+              (length done) rest (done ++ repeat zero (length rest)) = rest).
+  { induction rest as [|v rest IH]; intros done; cbn [trace length repeat]; [reflexivity|].
+    rewrite set_nth_app. f_equal.
+    replace (done ++ conv v :: repeat zero (length rest)) with ((done ++ [conv v]) ++ repeat zero (length rest))
+      by (rewrite <- app_assoc; reflexivity).
+    replace (length done + 1) with (length (done ++ [conv v])) by (rewrite app_length; reflexivity).
+    apply IH. }
+  pose proof (T l []) as Tl. cbn [length app] in Tl. rewrite Tl. reflexivity.
+Qed.
+
+Lemma filter_calls_correct {A} (l : list A) (p : A -> bool) : filter_calls l p = (filter p l, l).
+Proof.
+  unfold filter_calls, for_range. rewrite logging_range.
+  rewrite (range_from_next _ (fun r v => if p v then r ++ [v] else r)) by (intros; destruct (p v); reflexivity).
+  rewrite (trace_next _ _ (fun r v => if p v then r ++ [v] else r)) by (intros; destruct (p v); reflexivity).
+  rewrite (fold_left_filter_acc p l []). cbn [app]. f_equal.
+  erewrite map_ext; [apply fold_trace_values|]. intros [s v]. reflexivity.
+Qed.
+
+Lemma fold_calls_correct {A State} (l : list A) (seed : State) (acc : State -> A -> State) :
+  fold_calls l seed acc = (fold_left acc l seed, fold_trace acc seed l).
+Proof.
+  unfold fold_calls, for_range. rewrite logging_range.
+  rewrite (range_from_next _ acc) by reflexivity. rewrite (trace_next _ _ acc) by reflexivity.
+  cbn [app]. f_equal. apply map_pair_id.
+Qed.
+
+Lemma fold_trace_snoc {A State} (acc : State -> A -> State) (l : list A) x : forall s,
+  fold_trace acc s (l ++ [x]) = fold_trace acc s l ++ [(fold_left acc l s, x)].
+Proof.
+  induction l as [|v l IH]; intros s; cbn [app fold_trace fold_left]; [reflexivity|]. rewrite IH. reflexivity.
+Qed.
+
+Lemma foldreverse_calls_loop_correct {A State} (l : list A) (acc : State -> A -> State) :
+  forall k fuel state calls, k <= length l -> k <= fuel ->
+  foldreverse_calls_loop fuel l acc (Z.of_nat k - 1) state calls =
+  (Ok (fold_left acc (rev (firstn k l)) state), calls ++ fold_trace acc state (rev (firstn k l))).
+Proof.
+  induction k as [|k IH]; intros fuel state calls Hk Hf.
+  - destruct fuel; cbn; rewrite app_nil_r; reflexivity.
+  - destruct fuel as [|f]; [lia|]. cbn [foldreverse_calls_loop].
+    destruct (Z.geb_spec (Z.of_nat (S k) - 1) 0) as [_|?]; [|lia].
+    replace (Z.of_nat (S k) - 1)%Z with (Z.of_nat k) by lia.
+    destruct (nth_error l k) as [x|] eqn:E; [|apply nth_error_None in E; lia].
+    rewrite (get_z_nth _ _ _ E). rewrite IH by lia.
+    rewrite (firstn_S_nth _ _ _ E), rev_app_distr. cbn [rev app fold_left fold_trace].
+    rewrite <- app_assoc. reflexivity.
+Qed.
+
+Lemma foldreverse_calls_correct {A State} (l : list A) (seed : State) (acc : State -> A -> State) :
+  foldreverse_calls l seed acc = (Ok (fold_left acc (rev l) seed), fold_trace acc seed (rev l)).
+Proof.
+  unfold foldreverse_calls. rewrite foldreverse_calls_loop_correct by lia. rewrite firstn_all. reflexivity.
+Qed.
+
+(* DistinctFunc: one ContainsFunc(result, v, equals) per element *)
+Definition distinct_calls_step {A} (equals : A -> A -> bool) (s : list A * list (A * A)) (v : A) :=
+  let '(result, calls) := s in
+  let '(found, c) := containsfunc_calls result v equals in
+  (if negb found then result ++ [v] else result, calls ++ c).
+
+Lemma distinctfunc_calls_fold {A} (l : list A) equals :
+  distinctfunc_calls l equals = fold_left (distinct_calls_step equals) l ([], []).
+Proof.
+  unfold distinctfunc_calls, for_range.
+  rewrite (range_from_next _ (distinct_calls_step equals)).
+  - destruct (fold_left _ l _); reflexivity.
+  - intros i v [result calls]. unfold distinct_calls_step.
+    destruct (containsfunc_calls result v equals) as [found c]. destruct found; reflexivity.
+Qed.
+
+Lemma distinct_calls_step_fst {A} (equals : A -> A -> bool) (l : list A) : forall s,
+  fst (fold_left (distinct_calls_step equals) l s) = fold_left (distinct_step equals) l (fst s).
+Proof.
+  induction l as [|v l IH]; intros [result calls]; cbn [fold_left fst]; [reflexivity|].
+  rewrite IH. f_equal. unfold distinct_calls_step, distinct_step.
+  pose proof (containsfunc_calls_fst result v equals) as E. rewrite containsfunc_existsb in E.
+  destruct (containsfunc_calls result v equals) as [found c]. cbn [fst] in *. subst found.
+  destruct (existsb _ result); reflexivity.
+Qed.
+
+Lemma distinctfunc_calls_fst {A} (l : list A) equals : fst (distinctfunc_calls l equals) = distinctfunc l equals.
+Proof. rewrite distinctfunc_calls_fold, distinct_calls_step_fst, distinctfunc_greedy. reflexivity. Qed.
+
+Lemma distinctfunc_calls_snoc {A} (l : list A) (x : A) equals :
+  distinctfunc_calls [] equals = ([], []) /\
+  distinctfunc_calls (l ++ [x]) equals =
+    (distinctfunc (l ++ [x]) equals,
+     snd (distinctfunc_calls l equals) ++ snd (containsfunc_calls (distinctfunc l equals) x equals)).
+Proof.
+  split; [reflexivity|].
+  rewrite <- (distinctfunc_calls_fst (l ++ [x])). rewrite <- (distinctfunc_calls_fst l).
+  rewrite !distinctfunc_calls_fold, fold_left_app. cbn [fold_left].
+  destruct (fold_left (distinct_calls_step equals) l ([], [])) as [result calls]. cbn [fst snd].
+  unfold distinct_calls_step. destruct (containsfunc_calls result x equals) as [found c]. reflexivity.
+Qed.
+
+(* TrimFunc family *)
+Lemma trimleftfunc_calls_correct {A} (l : list A) p :
+  trimleftfunc_calls l p = (drop_while p l, take_while p l ++ firstn 1 (drop_while p l)).
+Proof.
+  induction l as [|x l IH]; cbn [trimleftfunc_calls drop_while take_while]; [reflexivity|].
+  destruct (p x); [rewrite IH; reflexivity|reflexivity].
+Qed.
+
+Lemma rev_snoc_calls {A} (p : A -> bool) (l : list A) x :
+  take_while p (rev (l ++ [x])) ++ firstn 1 (drop_while p (rev (l ++ [x]))) =
+  x :: (if p x then take_while p (rev l) ++ firstn 1 (drop_while p (rev l)) else []).
+Proof.
+  rewrite rev_app_distr. cbn [rev app take_while drop_while]. destruct (p x); reflexivity.
+Qed.
+
+Lemma trimright_calls_loop_correct {A} (p : A -> bool) (l : list A) : forall fuel calls, length l <= fuel ->
+  trimright_calls_loop fuel p l calls =
+  (Ok (drop_while_end p l), calls ++ take_while p (rev l) ++ firstn 1 (drop_while p (rev l))).
+Proof.
+  induction l as [|x l IH] using rev_ind; intros fuel calls Hf.
+  - destruct fuel; cbn; rewrite app_nil_r; reflexivity.
+  - rewrite drop_while_end_snoc, rev_snoc_calls.
+    assert (Hlen : length (l ++ [x]) = S (length l)) by (rewrite app_length; cbn; lia).
+    assert (Hget : get_nth (length (l ++ [x]) - 1) (l ++ [x]) = Ok x).
+    { unfold get_nth. rewrite Hlen. replace (S (length l) - 1) with (length l) by lia.
+      rewrite nth_error_app2 by lia. rewrite Nat.sub_diag. reflexivity. }
+    assert (Hrange : slice_range (l ++ [x]) 0 (length (l ++ [x]) - 1) = Ok l).
+    { unfold slice_range. rewrite Hlen. replace (S (length l) - 1) with (length l) by lia.
+      replace ((0 <=? length l) && (length l <=? S (length l))) with true
+        by (symmetry; apply andb_true_iff; split; apply Nat.leb_le; lia).
+      cbn [skipn]. rewrite Nat.sub_0_r. rewrite firstn_app, Nat.sub_diag, firstn_all. cbn [firstn].
+      rewrite app_nil_r. reflexivity. }
+    destruct fuel as [|f]; [rewrite Hlen in Hf; lia|].
+    cbn [trimright_calls_loop]. replace (0 <? length (l ++ [x])) with true by (symmetry; apply Nat.ltb_lt; lia).
+    rewrite Hget. destruct (p x); [|reflexivity].
+    rewrite Hrange. rewrite IH by (rewrite Hlen in Hf; lia). rewrite <- app_assoc. reflexivity.
+Qed.
+
+Lemma trimrightfunc_calls_correct {A} (l : list A) p :
+  trimrightfunc_calls l p = (Ok (drop_while_end p l), take_while p (rev l) ++ firstn 1 (drop_while p (rev l))).
+Proof. unfold trimrightfunc_calls. rewrite trimright_calls_loop_correct by lia. reflexivity. Qed.
+
+Lemma trimfunc_calls_correct {A} (l : list A) p :
+  trimfunc_calls l p =
+  (Ok (trim_ref p l),
+   (take_while p (rev l) ++ firstn 1 (drop_while p (rev l))) ++
+   (take_while p (drop_while_end p l) ++ firstn 1 (trim_ref p l))).
+Proof.
+  unfold trimfunc_calls. rewrite trimrightfunc_calls_correct, trimleftfunc_calls_correct. reflexivity.
+Qed.
+
+Lemma take_drop_while {A} (p : A -> bool) (l : list A) :
+  take_while p l ++ drop_while p l = l /\ forallb p (take_while p l) = true.
+Proof.
+  induction l as [|x l [IH1 IH2]]; cbn [take_while drop_while]; [split; reflexivity|].
+  destruct (p x) eqn:E; cbn [app forallb]; [|split; reflexivity].
+  rewrite E, IH1, IH2. split; reflexivity.
+Qed.
